@@ -450,6 +450,7 @@ def compare(cx, name, P, sols, inp, exact):
 def corrupt(cx, name, env, raw, P, feas, inp, budget):
     """C06: hand-built feasible solutions accepted, single-edit corruptions classified infeasible by the oracle rejected."""
     td0, seen, ends = env.reset(raw.clone()), set(), getattr(P, "ends", False)
+    td2, nbatch = [None], {}
     for c in pick(feas, budget):
         for q in P.forms(c):
             cx.rep.case((name, inp["instance"], tuple(q), "hand-built"))
@@ -472,8 +473,24 @@ def corrupt(cx, name, env, raw, P, feas, inp, budget):
             try:
                 env.check_solution_validity(td0, torch.tensor([m]))
                 cx.V(f"C06.{name}.accepts-{why}", f"checker accepted a solution violating '{why}'" + ("" if isinstance(f, str) else f" by {-f['slack']:.3g}"), **inp, actions=m)
+                continue
             except Exception:
                 pass
+            # the verdict on a row must not depend on its batch-mates: the same corrupted row next to the feasible original
+            # (same length only), as row 1 and as row 0 of a batch of two copies of the instance
+            qm = q + [0] if ends else q
+            if len(qm) != len(m) or nbatch.get(why, 0) >= 12:   # <= 12 in-batch checks per kind of fault and instance
+                continue
+            nbatch[why] = nbatch.get(why, 0) + 1
+            if td2[0] is None:
+                td2[0] = env.reset(torch.cat([raw.clone(), raw.clone()]))
+            for tag, rows in (("row1", [qm, m]), ("row0", [m, qm])):
+                cx.rep.case((name, inp["instance"], tuple(m), "corrupt-in-batch", tag))
+                try:
+                    env.check_solution_validity(td2[0], torch.tensor(rows))
+                    cx.V(f"C06.{name}.batch-{tag}.accepts-{why}", f"checker rejected this corrupted solution alone but accepted it as {tag} of a batch of two (the other row feasible): '{why}'", **inp, actions=rows)
+                except Exception:
+                    pass
 
 
 def joint(cx, name, env, items, tag, checker):
@@ -619,7 +636,7 @@ def main():
              f"MTVRP(cvrp,ovrp,vrpb,vrpl,vrptw,ovrpbltw); customers n in {sizes} (TSP/ATSP/mTSP n+1 nodes; PDP/MDCPDP n rounded down to even; SDVRP and MDCPDP only n<=4); "
              f"per env config and n: 1-3 hand-made exact boundary instances + {ngen} generator instances (VERIF_SEED={args.seed}, CVRP-family/MTVRP generator capacity 12, VRPL limit "
              f"tightened to 2*max depot distance+0.4); per instance: ALL mask-admitted action sequences from reset (batched frontier, finished rows padded), brute-force oracle over ALL "
-             f"sequences, <= {nsolo} solo replays, checker on all mask solutions, <= {nsolo} hand-built feasible solutions, all single-edit corruptions of <= {nsolo // 2} of them; per env "
+             f"sequences, <= {nsolo} solo replays, checker on all mask solutions, <= {nsolo} hand-built feasible solutions, all single-edit corruptions of <= {nsolo // 2} of them (each rejected corruption of equal length also as row 0 / row 1 of a batch of two next to the feasible original, <= 12 per kind of fault); per env "
              f"config and n: 4 mixed batches of 2-3 instances")
     rep = _lib.Report(bound=bound, rule="case = (env config, instance, action sequence, phase at-done / after-padding / hand-built / corrupt / replay batch composition)", max_violations=60)
     cx = Ctx(rep, args)
